@@ -1,11 +1,11 @@
 package main
 
 import (
-	"os"
-	"math"
 	"fmt"
 	"go/types"
 	"hash/crc32"
+	"math"
+	"os"
 	"path/filepath"
 	"sort"
 	"strings"
